@@ -26,8 +26,15 @@ Theorem C20_no_declaration_plain : forall s name src,
   fst (import_module s name src) = fst (let r := exec_body s src [] in match r with IOk => ({| meta_path := meta_path s; enabled := enabled s; loaded := name :: loaded s |}, IOk) | e => (s, e) end)
   /\ snd (import_module s name src) = exec_body s src [].
 Proof. exact no_declaration_activated. Qed.
+Theorem C20_disabled_import_plain : forall s name src,
+  enabled s = false ->
+  import_module s name src =
+    (let r := exec_body s src [] in
+     match r with IOk => ({| meta_path := meta_path s; enabled := enabled s; loaded := name :: loaded s |}, IOk) | x => (s, x) end).
+Proof. exact disabled_import_plain. Qed.
+Print Assumptions C20_disabled_import_plain.
 Theorem C20_unsupported_loud : forall s name src e rest,
-  active s = true -> get_contracts (m_body src) = e :: rest -> exec_contract e = CNone ->
+  active s = true -> enabled s = true -> get_contracts (m_body src) = e :: rest -> exec_contract e = CNone ->
   import_module s name src = (s, IExc "RuntimeError").
 Proof. exact unsupported_loud. Qed.
 Theorem C20_failed_import_not_registered : forall s name src s1 c,
@@ -48,7 +55,7 @@ Theorem C20_bare_contract_pure_or_safe : forall base attr c,
   exec_contract (CAttr base attr) = CSome c -> base = "deal" /\ ((attr = "pure" /\ c = KPure) \/ (attr = "safe" /\ c = KSafe)).
 Proof. exact bare_contract_pure_or_safe. Qed.
 Theorem C20_bare_factory_rejected : forall s name src attr rest,
-  active s = true -> get_contracts (m_body src) = CAttr "deal" attr :: rest -> attr <> "pure" -> attr <> "safe" ->
+  active s = true -> enabled s = true -> get_contracts (m_body src) = CAttr "deal" attr :: rest -> attr <> "pure" -> attr <> "safe" ->
   import_module s name src = (s, IExc "RuntimeError").
 Proof. exact bare_factory_rejected. Qed.
 Print Assumptions C20_bare_contract_pure_or_safe.
